@@ -295,7 +295,7 @@ def _wrap_prepare_inserts(relabeling):
 # C21: identifiers.pick_*
 import re as _re
 import keyword as _keyword
-_IDENT = _re.compile(r'^[A-Za-z][A-Za-z0-9_]*$')
+_IDENT = _re.compile(r'^[A-Za-z][A-Za-z0-9_]*\Z')     # \Z, not $: '$' also matches before a trailing newline
 
 def valid_ident(s, table=False, strict=False):
   """The property's notion of a valid id (strict=True: plain-ASCII form, used for 'kept as is')."""
